@@ -28,6 +28,13 @@ package ledger
 // Ledger.Validate). A separate population at r = 700 has 34 equal online accounts that
 // are all absent, to test the length limit of the absent list (32 accepted, 33 rejected).
 //
+// A third special population sits at r = 1201, inside the enforcement window of the
+// heartbeat challenge issued at round 1000 (window 1201..1400): 24 accounts (address shares
+// the 5 challenge bits with the seed of block 1000 or not x last seen at 1 / 999 / 1000 x
+// eligible x Online/Suspended) next to a heavy anchor account that keeps everybody's
+// stake-proportional lag above r. Singletons and pairs are placed in the absent list; the
+// documented second justification is "failed the challenge AND Online AND eligible".
+//
 // Oracle (harness, big.Int): the block is accepted iff
 //   every expired entry has a vote key and VoteLastValid < r, and
 //   every absent entry is Online, IncentiveEligible, has a non-zero balance, last-seen != 0,
@@ -38,7 +45,7 @@ package ledger
 // first, after which the account is no longer online; the statement does not order them).
 // The generator's own lists must be justified by the same oracle and its block accepted.
 //
-// Not covered: active heartbeat challenges, rounds >= 320 for the candidate populations
+// Not covered: challenge windows beyond the one dedicated population, rounds >= 320 for the candidate populations
 // (stake look-back beyond genesis), accounts modified inside the evaluated block,
 // rewards (switched off).
 //
@@ -123,6 +130,7 @@ type c27acct struct {
 	LastSeen uint64
 	Eligible bool
 	Stake    uint64 // agreement stake at the look-back round (genesis): balance if Online then
+	Match    bool   // challenge population: the address shares the challenge's leading bits
 }
 
 type c27pop struct {
@@ -132,11 +140,13 @@ type c27pop struct {
 	fillExp []c27acct // justified expired fillers
 	fillAbs []c27acct // justified absent fillers (long population only)
 	total   uint64
+	chRound uint64 // round of the heartbeat challenge that is being enforced at round r (0: none)
 	gb      bookkeeping.GenesisBalances
 	funder  basics.Address
 	l       *Ledger
 	base    bookkeeping.Block // generated block for round r
 	err     error
+	anchor  *c27acct // heavy online account that is never a candidate (challenge population)
 }
 
 func c27addr(tag byte, i int) basics.Address {
@@ -244,6 +254,53 @@ func c27makeLongPop(r uint64) *c27pop {
 	return p
 }
 
+// c27makeChallengePop: round r lies in the enforcement window of the heartbeat challenge
+// issued at chRound (chRound+grace < r <= chRound+2*grace). The documented rule: an
+// account whose address shares the challenge's leading ChallengeBits bits with the seed
+// of block chRound and that has not been seen since chRound may be marked absent - if it
+// is Online and IncentiveEligible like every absent entry. A heavy "anchor" account makes
+// every allowable lag > r, so nobody is absent by the stake-proportional rule here.
+func c27makeChallengePop(r, chRound uint64, bits int) *c27pop {
+	p := &c27pop{name: "challenge", r: r, chRound: chRound}
+	const bf = 1_000_000_000
+	p.funder = c27addr(5, 0) // its address is the seed of every block the harness builds
+	i := 0
+	for _, match := range []bool{true, false} {
+		for _, seen := range []uint64{1, chRound - 1, chRound} {
+			for _, elig := range []bool{true, false} {
+				for _, st := range []int{c27Online, c27Suspended} {
+					a := c27acct{Name: fmt.Sprintf("ch%d{match=%v seen=%d elig=%v status=%d}", i, match, seen, elig, st), Addr: c27addr(8, i), Exists: true,
+						Balance: bf, Status: st, HasKey: true, VLV: 1_000_000, LastSeen: seen, Eligible: elig}
+					if !match {
+						a.Addr[0] ^= 0x80 // differs from the seed in the very first bit
+					}
+					// the harness' own comparison of the leading bits (bits <= 8 here)
+					a.Match = (a.Addr[0]^p.funder[0])>>(8-uint(bits)) == 0
+					if a.Match != match {
+						panic("harness: challenge address construction")
+					}
+					if st == c27Online {
+						a.Stake = bf
+						p.total += bf
+					}
+					p.cands = append(p.cands, a)
+					i++
+				}
+			}
+		}
+	}
+	anchor := c27acct{Name: "anchor", Addr: c27addr(9, 0), Exists: true, Balance: 100 * bf, Status: c27Online, HasKey: true, VLV: 1_000_000, LastSeen: r - 5, Stake: 100 * bf}
+	anchor.Addr[0] ^= 0x80
+	p.fillAbs = nil
+	p.total += anchor.Balance
+	p.anchor = &anchor
+	for i := 0; i < 33; i++ {
+		p.fillExp = append(p.fillExp, c27acct{Name: fmt.Sprintf("fillE%d", i), Addr: c27addr(3, i), Exists: true, Balance: 1_000_000, Status: c27Suspended, HasKey: true, VLV: 1})
+	}
+	p.finishGenesis(true)
+	return p
+}
+
 func (p *c27pop) finishGenesis(hbSlot bool) {
 	accts := map[basics.Address]basics.AccountData{}
 	for _, group := range [][]c27acct{p.cands, p.fillExp, p.fillAbs} {
@@ -252,6 +309,9 @@ func (p *c27pop) finishGenesis(hbSlot bool) {
 				accts[a.Addr] = c27genesisData(a, hbSlot)
 			}
 		}
+	}
+	if p.anchor != nil {
+		accts[p.anchor.Addr] = c27genesisData(*p.anchor, hbSlot)
 	}
 	p.funder = c27addr(5, 0)
 	accts[p.funder] = basics.AccountData{MicroAlgos: basics.MicroAlgos{Raw: 1_000_000_000_000}, Status: basics.Offline}
@@ -341,6 +401,11 @@ func (p *c27pop) absentOK(a c27acct) bool {
 	return lhs.Cmp(rhs) < 0
 }
 
+// challengeOK: the second documented justification, only in the challenge population.
+func (p *c27pop) challengeOK(a c27acct) bool {
+	return p.chRound != 0 && a.Exists && a.Status == c27Online && a.Eligible && a.Balance != 0 && a.Match && a.LastSeen < p.chRound
+}
+
 type c27case struct {
 	Pop     string
 	Expired []string
@@ -380,8 +445,13 @@ func (p *c27pop) judge(exp, abs []c27acct, maxExp, maxAbs int) (int, string) {
 			return c27wantReject, "unjustified expired entry"
 		}
 	}
+	challenged := false
 	for _, a := range abs {
 		if !p.absentOK(a) {
+			if p.challengeOK(a) {
+				challenged = true
+				continue
+			}
 			return c27wantReject, "unjustified absent entry"
 		}
 	}
@@ -390,6 +460,9 @@ func (p *c27pop) judge(exp, abs []c27acct, maxExp, maxAbs int) (int, string) {
 	}
 	if len(exp)+len(abs) == 0 {
 		return c27wantAccept, "empty lists"
+	}
+	if challenged {
+		return c27wantAccept, "justified (failed challenge, online and eligible)"
 	}
 	return c27wantAccept, "all entries justified"
 }
@@ -472,6 +545,9 @@ func TestVerif_C27(t *testing.T) {
 	}
 	long := c27makeLongPop(700)
 	pops = append(pops, long)
+	// enforcement window of the challenge issued at round 1000: rounds 1201..1400
+	chRound := uint64(proto.Payouts.ChallengeInterval)
+	pops = append(pops, c27makeChallengePop(chRound+uint64(proto.Payouts.ChallengeGracePeriod)+1, chRound, proto.Payouts.ChallengeBits))
 	defer func() {
 		for _, p := range pops {
 			if p.l != nil {
@@ -544,7 +620,21 @@ func TestVerif_C27(t *testing.T) {
 	var jobs []job
 	for _, p := range pops {
 		n := len(p.cands)
-		if n > 0 {
+		if p.chRound != 0 {
+			// challenge population: every single candidate and every pair in the absent list,
+			// every single candidate in the expired list, and all challenge-justified ones together
+			var all []c27acct
+			for i, a := range p.cands {
+				jobs = append(jobs, job{p, nil, []c27acct{a}}, job{p, []c27acct{a}, nil})
+				for _, b := range p.cands[i+1:] {
+					jobs = append(jobs, job{p, nil, []c27acct{a, b}})
+				}
+				if p.challengeOK(a) {
+					all = append(all, a)
+				}
+			}
+			jobs = append(jobs, job{p, nil, all}, job{p, nil, append(append([]c27acct{}, all...), all[0])})
+		} else if n > 0 {
 			for em := 0; em < 1<<n; em++ {
 				for am := 0; am < 1<<n; am++ {
 					var exp, abs []c27acct
@@ -578,15 +668,15 @@ func TestVerif_C27(t *testing.T) {
 	}
 	sort.Strings(keys)
 	r.Set("outcome_classes", tally.m)
-	r.Note("%d populations (%d candidate populations at round %d + 1 long population at round 700), %d list placements", len(pops), len(pops)-1, round, len(jobs))
+	r.Note("%d populations (%d candidate populations at round %d + 1 long population at round 700 + 1 challenge-window population at round 1201), %d list placements", len(pops), len(pops)-2, round, len(jobs))
 	if len(pops) > 5 {
 		r.Sample(c27case{Pop: pops[5].name, Expired: []string{"tiny"}, Absent: []string{"most"}})
 		r.Sample(pops[5].cands)
 	}
-	r.Assume("no heartbeat challenge is active at the evaluated rounds (70 and 700 < ChallengeInterval); the challenge path is not exercised")
+	r.Assume("no heartbeat challenge is active at rounds 70 and 700 (< ChallengeInterval); the challenge path is exercised only by the dedicated population at round 1201, whose block seeds are all the funder address (the harness finishes every block with that seed)")
 	r.Assume("agreement stake of a candidate = its genesis balance if Online at genesis (rounds < 320 look back to genesis); total online stake = sum over accounts Online at genesis, cross-checked once per population against Ledger.OnlineCirculation")
 	r.Assume("account attributes are installed directly in the genesis allocation; the blocks leading to round r-1 carry empty participation-update lists")
-	n := r.Finish(ve.Coverage{Rule: fmt.Sprintf("%d", len(all)-1) + " genesis populations of 3 candidates (stake tiny/third/most; status x VoteLastValid {r-1,r,r+1,0} x last-seen {0, threshold-1, threshold, threshold+1} x eligible, diagonal assignment so that every (stake, attribute) pair occurs) + ghost + expired fillers: every pair of subsets of the 4 candidates as (expired, absent) lists, duplicated entries, 32/33-entry lists, in an otherwise valid generated block re-evaluated with validation; plus one population with 34 absent accounts at round 700 for the absent-list limit; oracle = harness big.Int evaluation of the expiry rule and of 20*total < (r-lastSeen)*stake", Exhaustive: true})
+	n := r.Finish(ve.Coverage{Rule: fmt.Sprintf("%d", len(all)-2) + " genesis populations of 3 candidates (stake tiny/third/most; status x VoteLastValid {r-1,r,r+1,0} x last-seen {0, threshold-1, threshold, threshold+1} x eligible, diagonal assignment so that every (stake, attribute) pair occurs) + ghost + expired fillers: every pair of subsets of the 4 candidates as (expired, absent) lists, duplicated entries, 32/33-entry lists, in an otherwise valid generated block re-evaluated with validation; plus one population with 34 absent accounts at round 700 for the absent-list limit; plus one population of 24 accounts (address matches the challenge bits or not x last seen at 1 / 999 / 1000 x eligible x Online/Suspended) at round 1201 inside a heartbeat-challenge enforcement window (singletons and pairs; justified iff failed challenge AND online AND eligible); oracle = harness big.Int evaluation of the expiry rule and of 20*total < (r-lastSeen)*stake", Exhaustive: true})
 	if n > 0 {
 		t.Fatal("violations")
 	}
